@@ -236,7 +236,7 @@ def run(ctx):
     tier = ctx.tier
     K = 3 if tier == "quick" else 4
     cfg = tlc.make_cfg(constants=dict(N=3, A=2, MaxOps=K), spec="Spec", invariants=["Inv"])
-    r = tlc.run("ExpectCache", cfg, timeout=3000)
+    r = tlc.run("ExpectCache", cfg, vacuity=True, timeout=3000)
     ctx.add_tlc(r, f"ExpectCache N=3, 2 symbols, <= {K} operators, every admissible cut")
     if r["violated"]:
         ctx.violation(f"C07:spec:{r['violated']}", "ExpectCache violates " + r["violated"], {"tlc": r.get("error_text", "")[:2000]})
